@@ -39,9 +39,24 @@ const threshold = 2
 // urlsX: a second URL list with a fourth id under h.com/u (letters 100, 101, ...: URL
 // urlsX[(l-100)%7], profile (l-100)/7), so that a tree rebuilt after a restart can converge a
 // second time on ids it has not seen before.
+// urlsY: two levels of ids (letters 200 + 3*u + c: URL h.com/u/<u+1>/c/<c+1>, profile 0): the
+// inner id can converge below one outer id before the outer id converges
+var urlsY = func() []string {
+	var l []string
+	for u := 1; u <= 3; u++ {
+		for c := 1; c <= 3; c++ {
+			l = append(l, fmt.Sprintf("h.com/u/%d/c/%d", u, c))
+		}
+	}
+	return l
+}()
+
 var urlsX = []string{"h.com/u/1", "h.com/u/2", "h.com/u/3", "h.com/u/4", "h.com/u/5", "h.com/u/6", "h.com/u/7"}
 
 func split(letter int) (string, profile) {
+	if letter >= 200 {
+		return urlsY[(letter-200)%len(urlsY)], profiles[0]
+	}
 	if letter >= 100 {
 		return urlsX[(letter-100)%len(urlsX)], profiles[(letter-100)/len(urlsX)]
 	}
@@ -375,7 +390,19 @@ func setKnown(urls ...string) {
 	}
 }
 
+// twoLevelKey: every violation found in the two-level family is reported under one key (the
+// unchanged tree already violates the property there, in a way that depends on Go's map
+// iteration order inside the plugin, so which clause fails varies from run to run)
+const twoLevelKey = "TWO-LEVEL-CONVERGENCE"
+
 func evalStream(r *mc.Run, letters []int) {
+	twoLevel := len(letters) > 0 && letters[0] >= 200
+	vkey := func(clause string) string {
+		if twoLevel {
+			return twoLevelKey
+		}
+		return clause
+	}
 	stream := make([]common.AccessLog, len(letters))
 	var names []string
 	for i, l := range letters {
@@ -414,7 +441,7 @@ func evalStream(r *mc.Run, letters []int) {
 			}
 		}
 		if fail != "" {
-			r.Violation(strings.SplitN(fail, " ", 2)[0], fmt.Sprintf("stream=%v%s batches cut after %v: %s", names, knownName(), cuts, fail), replay{letters, names, cuts, -1, knownURLs()})
+			r.Violation(vkey(strings.SplitN(fail, " ", 2)[0]), fmt.Sprintf("stream=%v%s batches cut after %v: %s", names, knownName(), cuts, fail), replay{letters, names, cuts, -1, knownURLs()})
 			r.Outcome("violation")
 			continue
 		}
@@ -427,7 +454,7 @@ func evalStream(r *mc.Run, letters []int) {
 				f2 = conservation(stream, rr2, false)
 			}
 			if f2 != "" {
-				r.Violation("RESTART:"+strings.SplitN(f2, " ", 2)[0], fmt.Sprintf("stream=%v%s batches cut after %v restart after batch %d: %s", names, knownName(), cuts, ra, f2), replay{letters, names, cuts, ra, knownURLs()})
+				r.Violation(vkey("RESTART:"+strings.SplitN(f2, " ", 2)[0]), fmt.Sprintf("stream=%v%s batches cut after %v restart after batch %d: %s", names, knownName(), cuts, ra, f2), replay{letters, names, cuts, ra, knownURLs()})
 			}
 		}
 	}
@@ -460,7 +487,7 @@ func TestCheck(t *testing.T) {
 	}
 	nl := len(urls) * len(profiles)
 	fullLen := mc.Pick(r, 3, 4)
-	r.Rule = fmt.Sprintf("every access-log stream of length 1..%d over %d record letters (5 URLs, three of which converge under an inferred path parameter at threshold %d, x 4 method/status/duration/consumer/interceptor profiles), plus all streams one record longer over 10 letters and over the 4 path URLs x {GET, POST}, and two records longer (length %d) over the 4 path URLs, and over four ids under one path, and 6-7 records with pairwise different ids under one path; the latter families also with the tree built from known endpoints (a wildcard covering all traffic / a declared path parameter); x every composition into consecutive batches x a restart (state re-read from disk, tree rebuilt) after any batch; non-trivial = stream with >=3 distinct URLs; distinct = stream", fullLen, nl, threshold, fullLen+2)
+	r.Rule = fmt.Sprintf("every access-log stream of length 1..%d over %d record letters (5 URLs, three of which converge under an inferred path parameter at threshold %d, x 4 method/status/duration/consumer/interceptor profiles), plus all streams one record longer over 10 letters and over the 4 path URLs x {GET, POST}, and two records longer (length %d) over the 4 path URLs, and over four ids under one path, and 6-7 records with pairwise different ids under one path, and 5 (thorough 6) records over two levels of ids (3 x 3, up to renaming); the latter families also with the tree built from known endpoints (a wildcard covering all traffic / a declared path parameter); x every composition into consecutive batches x a restart (state re-read from disk, tree rebuilt) after any batch; non-trivial = stream with >=3 distinct URLs; distinct = stream", fullLen, nl, threshold, fullLen+2)
 	r.Assume("records are attributed to endpoints with the run's own final URL tree (lookup only)", "after a restart only totals are compared (the rebuilt tree may attribute later records to raw URLs)",
 		"averages compared with the exact rational mean within 1e-4 relative")
 	if r.Parallel(t, 16) {
@@ -556,9 +583,39 @@ func TestCheck(t *testing.T) {
 			return true
 		})
 	}
+	// (4c) two levels of ids: every stream of 5 and 6 records over 3 x 3 ids up to renaming of
+	// the ids (first occurrences in increasing order)
+	canonical := func(l []int) bool {
+		nu, nc := 0, 0
+		for _, x := range l {
+			u, c := x/3, x%3
+			if u > nu || c > nc {
+				return false
+			}
+			if u == nu {
+				nu++
+			}
+			if c == nc {
+				nc++
+			}
+		}
+		return true
+	}
+	for n := 5; n <= mc.Pick(r, 5, 6); n++ {
+		mc.Sequences(9, n, func(l []int) bool {
+			if len(l) == n && canonical(l) {
+				m := make([]int, n)
+				for i, x := range l {
+					m[i] = 200 + x
+				}
+				visit(m)
+			}
+			return true
+		})
+	}
 	// (5) the same families with a tree built from known endpoints: a wildcard that covers
 	// all the traffic, and a declared path parameter
-	for _, kn := range [][]string{{"h.com/*"}, {"h.com/u/{id}"}} {
+	for _, kn := range [][]string{{"h.com/*"}, {"h.com/u/{id}"}, {"{t}.com/zzz"}} {
 		setKnown(kn...)
 		mc.Sequences(4, fullLen+2, func(l []int) bool {
 			if len(l) >= fullLen {
